@@ -559,6 +559,20 @@ def _guard_reads(run, P):
                 hits.append(x)
             if isinstance(y, ast.Name) and y.id in holders:
                 hits.append(x)
+    if not hits:
+        kept = [x for x in ast.walk(f.node) if isinstance(x, (ast.AugAssign, ast.Call))
+                and any(isinstance(y, ast.Attribute) and dotted(y.value) == "self"
+                        and ("flag" in y.attr or "guard" in y.attr or "cond" in y.attr)
+                        and "stack" not in y.attr.replace("_names", "") or (
+                            isinstance(y, ast.Attribute) and dotted(y.value) == "self" and y.attr.endswith("_names")
+                            and y.attr != "_seen_var_names" and y.attr != "_seen_state_var_names")
+                        for y in ast.walk(x))]
+        if kept:
+            # the names the guard reads are kept beside the guard (a second stack): right
+            # exactly when every push and pop of the guard stack moves that one, too - a
+            # pairing over if_ / else_ / end that this clause does not follow
+            raise AnalysisError("_add_statement takes the guard's reads from names kept beside the "
+                                "guard stack; not decided")
     run.ob("C02.cond", f, hits[0] if hits else f.node, bool(hits),
            construct=f"the read set of a new statement takes in get_variables({cv}), the guard "
                      f"it is given",
@@ -662,6 +676,13 @@ def _guard(run, P):
         isinstance(x, ast.Call) and dotted(x.func) == f"{stack}.append"
         and dotted(x.args[0]) in flags for x in walk_fragment(p.ast))]
     ok = bool(adds) and bool(flag_pushes) and not g.always_preceded(flag_pushes, adds)
+    if adds and flag_pushes and not ok:
+        after = g.reachable(flag_pushes, follow_exc=False)
+        if not any(a_ in after for a_ in adds):
+            # some path pushes a flag without assigning one (a flag of an earlier test of
+            # the same condition is used again): when that is sound is not decided here
+            raise AnalysisError("if_: a flag can be pushed without a flag assignment on the way "
+                                "(re-use of an earlier flag); not decided")
     run.ob("C02.guard", f, adds[0].ast if adds else f.node, ok,
            construct="_add_statement(<flag assignment>) before the push",
            why="added after the push the flag assignment would be guarded by itself")
@@ -744,6 +765,39 @@ def _fresh(run, P):
                          and dotted(s.value.args[0]) == v for s in n.body[:-1])
             site = n
     rets = [s for s in func_body_stmts(f.node) if isinstance(s, ast.Return)]
+    # the builder may leave the job to a name generator object it keeps: that object has its
+    # own books, so every name a statement reads or writes has to be entered there as well
+    gen_ret = [r for r in rets if isinstance(r.value, ast.Call) and (dotted(r.value.func) or "").startswith("self.")
+               and dotted(r.value.func).count(".") == 1 and not ok_test]
+    if gen_ret and len(rets) == 1:
+        gen = dotted(gen_ret[0].value.func)
+        init = P.func(f"{CB}.__init__")
+        made = any(isinstance(x, ast.Assign) and any(dotted(t_) == gen for t_ in x.targets)
+                   and isinstance(x.value, ast.Call)
+                   and (dotted(x.value.func) or "").split(".")[-1] == "UniqueNameGenerator"
+                   for x in ast.walk(init.node))
+        if not made:
+            raise AnalysisError(f"fresh_var_name hands the request to {gen}, which is no "
+                                f"UniqueNameGenerator made in __init__; not recognised")
+        add = P.func(f"{CB}._add_statement")
+        feeds = [x for x in ast.walk(add.node) if isinstance(x, ast.Call)
+                 and dotted(x.func) in (f"{gen}.add_names", f"{gen}.add_name") and x.args]
+        names_fed = {n_.id for x in feeds for n_ in ast.walk(x.args[0]) if isinstance(n_, ast.Name)}
+        seen_src = set()
+        for x in ast.walk(add.node):
+            if isinstance(x, ast.AugAssign) and dotted(x.target) == "self._seen_var_names":
+                seen_src |= {n_.id for n_ in ast.walk(x.value) if isinstance(n_, ast.Name)}
+        ok_feed = bool(feeds) and bool(seen_src) and seen_src <= names_fed
+        run.ob("C02.fresh", add, feeds[0] if feeds else add.node, ok_feed,
+               construct=f"every name _add_statement records as seen ({sorted(seen_src)}) is also "
+                         f"entered into {gen}" + ("" if feeds else " (no add_names call)"),
+               why="the generator copies the names it is constructed with: a name that only "
+                   "turns up later in a statement is unknown to it and is handed out again, "
+                   "capturing the user's variable")
+        run.ob("C02.fresh", f, gen_ret[0], True,
+               construct=f"fresh names come from {gen}, which never repeats one",
+               why="pytools.UniqueNameGenerator records what it hands out")
+        return
     run.ob("C02.fresh", f, site, ok_test and len(rets) == 1,
            construct="return only under 'name not in self._seen_var_names'",
            why="a returned name that is already in use captures a user variable")
